@@ -689,6 +689,64 @@ def r15(ctx, prog):
                (bad[0], bad[1], bad[2], (', %s goes below zero at %s' % bad[3]) if bad[3] else '', (', reads history[%s]' % bad[4][0][1]) if bad[4] else ''), where=f.loc(f.body))
 
 
+def r16(ctx, prog):
+    ctx.rule('C13.R16', 'A5 the invariant behind the map look-ups (checked, since C13.R1 relies on it): a front end\'s client<->session maps lose an entry only together with the '
+             'connection — in onTcpDisconnected, in cleanup, or in the very function (closure) that also disconnects that client; between an erase and a later, deferred '
+             'disconnect the socket is still readable and every receive handler looks the client up with at()', floor=4)
+    n = 0
+    for cls in (TEL, RPC):
+        for f in prog.funcs.values():
+            if prog.outermost(f).cls != cls:
+                continue
+            ers = [c for c in f.calls() if c.get('fn') in ('erase', 'clear') and c.get('obj') is not None and
+                   any((f.field_of(c['obj']) or '').endswith(m) for m in ('client_to_session_', 'session_to_client_'))]
+            for e in ers:
+                n += 1
+                top = prog.outermost(f)
+                here = top.short in ('onTcpDisconnected', 'cleanup') and f is top
+                together = any(c.get('fn') == 'disconnect' for c in f.calls())
+                ok = here or together
+                ctx.ob('C13.R16', '%s|%s.%s' % (locks.site_name(prog, f), f.path(e['obj']).split('.')[-1], e['fn']), ok,
+                       'the entry goes in the disconnect handler / cleanup / together with the disconnect' if ok else
+                       '%s loses an entry here while the connection is only disconnected elsewhere (later): data arriving in between reaches onTcpReceived -> %s.at(client), which '
+                       'throws through the event loop' % (f.path(e['obj']).split('.')[-1], 'client_to_session_'), where=f.loc(e['i']))
+    if n < 4:
+        raise AnalysisBroken('expected >= 4 erase sites of the client/session maps, found %d' % n)
+
+
+def r17(ctx, prog):
+    ctx.rule('C13.R17', 'A12 one end per work list: the tree walk keeps one list of pending nodes per level; the node being processed, the ancestor compared in the cycle test and '
+             'the node removed afterwards are taken from the same end of those lists (front / erase(begin) or back / pop_back, not a mixture) — otherwise the cycle test looks '
+             'at a sibling instead of the ancestor and a self-mounted directory is walked for ever', floor=1)
+    f = prog.fn1(T + '::executeTreeCmd')
+    ends = {}
+    for c in f.calls():
+        cls = c.get('cls') or ''
+        if 'NodeInfo' not in cls or not cls.startswith('std::vector<'):
+            continue
+        if 'std::vector<std::vector<' in cls:
+            continue        # the stack of levels itself (always used at its back)
+        fn = c.get('fn')
+        if fn in ('front', 'pop_front'):
+            ends.setdefault('front', []).append(c)
+        elif fn in ('back', 'pop_back'):
+            ends.setdefault('back', []).append(c)
+        elif fn == 'erase' and c.get('args'):
+            a = f.s(f.strip_casts(c['args'][0]))
+            inner = [f.stmts[x].get('fn') for x in f.walk(c['args'][0]) if f.stmts[x]['k'] in q.CALL_KINDS]
+            if 'begin' in inner and 'end' not in inner:
+                ends.setdefault('front', []).append(c)
+            elif 'end' in inner or 'rbegin' in inner:
+                ends.setdefault('back', []).append(c)
+    if not ends:
+        raise AnalysisBroken('executeTreeCmd: no front()/back() access to the per-level node lists found')
+    ok = len(ends) == 1
+    ctx.ob('C13.R17', '%s|one-end' % f.name, ok, 'the per-level lists are used at their %s only (%d sites)' % (list(ends)[0], sum(len(v) for v in ends.values())) if ok else
+           'the per-level node lists are used at both ends: front-side at %s, back-side at %s — the current node and the ancestor looked at by the cycle test are not the same element' %
+           (', '.join(f.loc(c['i']).split(':')[-1] for c in ends.get('front', [])[:3]), ', '.join(f.loc(c['i']).split(':')[-1] for c in ends.get('back', [])[:3])),
+           where=f.loc((ends.get('front') or ends.get('back'))[0]['i']))
+
+
 def run(ctx):
     prog = extract('ALL' if ctx.tier == 'thorough' else scope_units())
     ctx.guard(r1, ctx, prog)
@@ -703,6 +761,8 @@ def run(ctx):
     ctx.guard(r13, ctx, prog)
     ctx.guard(r14, ctx, prog)
     ctx.guard(r15, ctx, prog)
+    ctx.guard(r16, ctx, prog)
+    ctx.guard(r17, ctx, prog)
     ctx.guard(harden.run_threshold, ctx, prog, 'C13.R12', lambda g: g.file.startswith(MODULES + '/terminal/impl/service/'), 'terminal input scanner', 3)
     ctx.guard(harden.run_narrowing, ctx, prog, 'C13.R11', input_entries(prog),
               lambda g: g.file.startswith(MODULES + '/terminal/') or g.file.startswith(MODULES + '/util/'), 'terminal input path')
